@@ -464,7 +464,7 @@ pub fn run(ctx: &Ctx) -> i32 {
     let c_ans = oracle::cprintf(&c_lines);
     let c_ans: Vec<Option<String>> = cases.iter().zip(c_ans).map(|(c, a)| if c.c_line.is_some() { a } else { None }).collect();
     let py_ans = oracle::python(&cases.iter().map(|c| c.py.clone()).collect::<Vec<_>>());
-    let cfg = util::ForkCfg { threads: ctx.threads, mem_bytes: 4 << 30, case_timeout_s: 120, died_signature: "C19/abort".into() };
+    let cfg = util::ForkCfg { threads: ctx.threads, mem_bytes: 4 << 30, case_timeout_s: 120, died_signature: "C19/abort".into(), resource_is_violation: false };
     let r = util::par_forked(&cfg, 128, |sh| grid_sweep(&cases, &c_ans, &py_ans, sh));
     total.extra.insert("grid_cases".into(), json!(cases.len()));
     total.merge(r);
